@@ -74,6 +74,11 @@ def cfgs():
     return out
 
 
+def legacy_cfgs():
+    """the older serializer spelling - a serializer function, a deserializer function, or both (search only: the models know `serde`)"""
+    return [dict(tcp=False, prefix=b"", default_noreply=False, enc=0, unicode=False, serde=0, ignore_exc=False, legacy=how) for how in ("de", "ser", "ser+de")]
+
+
 def sequences(ctx):
     rng = random.Random(ctx.seed * 7919 + 16)
     seqs = grid_ops()
@@ -276,7 +281,7 @@ def search(ctx):
     found = []
     n = 0
     seqs = sequences(ctx)
-    allc = cfgs()
+    allc = cfgs() + legacy_cfgs()
 
     def record(stack, c, ops, why):
         found.append({"clause": why, "finding": finding_of(stack, c, ops, why), "input": {"stack": stack, "cfg": repr(c), "ops": repr(ops)},
@@ -303,7 +308,7 @@ def search(ctx):
         for ci, c in enumerate(allc):
             if si >= len(grid_ops()) and (si + ci) % (8 if ctx.quick else 2):
                 continue            # random sequences: a rotating subset of configurations each
-            if si < len(grid_ops()) and ctx.quick and (si + ci) % 3 and "omit" not in c:
+            if si < len(grid_ops()) and ctx.quick and (si + ci) % 3 and "omit" not in c and "legacy" not in c:
                 continue
             for stack in STACKS:
                 n += 1
